@@ -39,18 +39,20 @@ def first_class(rng):
     return "n61"
 
 
-def agg_with_path(rng, depth=0):
-    """(aggregate type, valid index path, element type)"""
-    if depth >= 2 or (depth > 0 and rng.random() < 0.4):
+def agg_with_path(rng, depth=0, maxd=None):
+    """(aggregate type, valid index path, element type); one path in four goes up to four levels deep"""
+    if maxd is None:
+        maxd = 2 if rng.random() < 0.75 else 4
+    if depth >= maxd or (depth > 0 and rng.random() < (0.4 if maxd == 2 else 0.15)):
         t = first_class(rng) if rng.random() < 0.5 else rng.choice(INTS)
         return t, [], t
     if rng.random() < 0.5:
-        sub, path, el = agg_with_path(rng, depth + 1)
+        sub, path, el = agg_with_path(rng, depth + 1, maxd)
         n = rng.choice([1, 2, 5])
         return "a%d(%s)" % (n, sub), [rng.randrange(n)] + path, el
     k = rng.randint(1, 3)
     pos = rng.randrange(k)
-    sub, path, el = agg_with_path(rng, depth + 1)
+    sub, path, el = agg_with_path(rng, depth + 1, maxd)
     fields = [rng.choice(INTS + FLOATS) for _ in range(k)]
     fields[pos] = sub
     return "%s(%s)" % (rng.choice(["s", "P"]), ",".join(fields)), [pos] + path, el
@@ -206,6 +208,20 @@ def alias_cases():
     out.append(("load", ["V4(f1)", "%s(p1(V4(f1)))" % A]))
     out.append(("extractvalue:1", ["%s(s(i32,V2(i8)))" % A]))
     out.append(("extractvalue:0.1", ["%s(a2(s(i8,i64)))" % A]))
+    # index paths of three and four levels through every sequence of array and struct levels (each level has its own element types, the path never takes the
+    # first element twice in the same way): a walk that re-applies, skips or reorders an index lands on another type
+    import itertools
+    for depth in (3, 4):
+        for word in itertools.product("as", repeat=depth):
+            t, path, el = "f1", [], "f1"
+            for lvl, ch in enumerate(reversed(word)):
+                if ch == "a":
+                    t, path = "a%d(%s)" % (lvl + 2, t), [lvl + 1] + path
+                else:
+                    fields = ["i%d" % (8 * (lvl + 1))] * (lvl % 2 + 1) + [t]
+                    t, path = "s(%s)" % ",".join(fields), [len(fields) - 1] + path
+            out.append(("extractvalue:" + ".".join(map(str, path)), ["%s(%s)" % (A, t)]))
+            out.append(("insertvalue:" + ".".join(map(str, path)), [t, el]))          # (the result IS the aggregate type: written without the alias)
     return out
 
 
